@@ -33,6 +33,8 @@ MinI(a, b) == IF a <= b THEN a ELSE b
 Empty        == [k |-> "empty"]
 Lit(c)       == [k |-> "lit", c |-> c, ci |-> FALSE]
 LitI(c)      == [k |-> "lit", c |-> c, ci |-> TRUE]
+\* cs = TRUE: written (?-i:c), i.e. case-sensitive even under a case-insensitive builder option
+LitCS(c)     == [k |-> "lit", c |-> c, ci |-> FALSE, cs |-> TRUE]
 AnyC         == [k |-> "any", nl |-> FALSE]
 AnyNL        == [k |-> "any", nl |-> TRUE]
 Class(s)     == [k |-> "class", set |-> s, neg |-> FALSE, ci |-> FALSE]
